@@ -1630,6 +1630,22 @@ class Enum(String, SchemaType, Emulated, TypeEngine[Union[str, enum.Enum]]):
         """
         self._enum_init(enums, kw)  # type: ignore[arg-type]
 
+    @util.memoized_property
+    def _static_cache_key(self):
+        # Enum.__init__ accepts *enums, **kw, so the generic scheme that
+        # derives the key from __init__ argument names does not see the
+        # enumerated values, the enum class or the SchemaType arguments,
+        # all of which change the rendered SQL and / or the bind and result
+        # processing.
+        return TypeEngine._static_cache_key.fget(self) + (  # type: ignore[attr-defined] # noqa: E501
+            ("enums", tuple(self.enums)),
+            ("enum_class", self.enum_class),
+            ("name", self.name),
+            ("schema", self.schema),
+            ("native_enum", self.native_enum),
+            ("validate_strings", self.validate_strings),
+        )
+
     @property
     def _enums_argument(self):
         if self.enum_class is not None:
